@@ -10,6 +10,7 @@ import (
 	"os"
 	"runtime"
 	"sync/atomic"
+	"syscall"
 	"testing"
 	"time"
 
@@ -103,30 +104,48 @@ var runActive atomic.Bool
 // resolve (an actor spinning on a flag, or blocked on a sync.Mutex, while the goroutine that would release it
 // is parked): the child says so and exits with status 3; the driver counts the run as inconclusive.
 func stallWatchdog(flavour string) {
-	limit := 6 * time.Second
+	// thresholds: wall-clock for a goroutine blocked on a mutex (it burns no CPU), CPU time of this process for a
+	// spinning one — so that a machine too busy to run the child is never mistaken for a stalled run
+	wallLimit, cpuLimit := 6*time.Second, 5*time.Second
 	if flavour == "auto" {
-		limit = 20 * time.Second // here a stall is reported as a violation: be generous
+		cpuLimit = 15 * time.Second // here a spin is reported as a violation: be generous
 	}
-	last, since := kernel.Progress.Load(), time.Now()
+	last, since, cpuSince := kernel.Progress.Load(), time.Now(), cpuTime()
 	for {
 		time.Sleep(250 * time.Millisecond)
 		cur := kernel.Progress.Load()
 		if !runActive.Load() || cur != last {
-			last, since = cur, time.Now()
+			last, since, cpuSince = cur, time.Now(), cpuTime()
 			continue
 		}
-		if time.Since(since) > limit {
-			buf := make([]byte, 1<<20)
-			n := runtime.Stack(buf, true)
-			why := "spin: an actor computes or spins without reaching a yield, or is blocked in a way synctest does not see as blocked"
-			if bytes.Contains(buf[:n], []byte("sync.(*Mutex).Lock")) || bytes.Contains(buf[:n], []byte("sync.(*RWMutex)")) {
-				why = "mutex: an actor is blocked on a sync mutex held by a parked actor"
-			}
-			os.Stdout.WriteString("STALL " + why + "\n")
-			os.Stderr.Write(buf[:n])
-			os.Exit(3)
+		if time.Since(since) < wallLimit {
+			continue
 		}
+		buf := make([]byte, 1<<20)
+		n := runtime.Stack(buf, true)
+		why := ""
+		switch {
+		case bytes.Contains(buf[:n], []byte("sync.(*Mutex).Lock")) || bytes.Contains(buf[:n], []byte("sync.(*RWMutex)")):
+			why = "mutex: an actor is blocked on a sync mutex held by a parked actor"
+		case cpuTime()-cpuSince >= cpuLimit:
+			why = fmt.Sprintf("spin: an actor has used %.0f s of CPU without reaching a yield", (cpuTime() - cpuSince).Seconds())
+		case time.Since(since) > 10*time.Minute:
+			why = "unknown: no progress for 10 minutes without CPU use"
+		default:
+			continue
+		}
+		os.Stdout.WriteString("STALL " + why + "\n")
+		os.Stderr.Write(buf[:n])
+		os.Exit(3)
 	}
+}
+
+func cpuTime() time.Duration {
+	var ru syscall.Rusage
+	if syscall.Getrusage(syscall.RUSAGE_SELF, &ru) != nil {
+		return 0
+	}
+	return time.Duration(ru.Utime.Nano() + ru.Stime.Nano())
 }
 
 func generate(t *testing.T, prop, tier string, seed uint64, verbose bool, journal func(step, who int, site string)) proto.End {
